@@ -421,7 +421,7 @@ pub fn run_c11(chk: &Check, tier: Tier) {
         }
         let out = xs::explore(&sys, &Limits::default());
         engine::record(chk, &sys, &out, None);
-        if tier.thorough() && out.found.is_empty() {
+        if tier.thorough() && out.found.is_empty() && chk.violation_count() == 0 {
             let plain = c11_system("C11", c, Report { oracle: true, ..Default::default() }, vals, false);
             let xs_plain = xs::explore(&plain, &Limits { restoration_check: false, ..Default::default() });
             let r = xs::sr::run(std::sync::Arc::new(plain), xs::n_threads());
